@@ -338,6 +338,13 @@ func (g *gen) epShare(p *appPlan, apps []string, event bool) EpD {
 		e.Annos = g.annos(p.epAnno[prefix+name], 2)
 	}
 	e.Stmts = g.stmts(2, 3, apps)
+	if again && !event && g.r.Chance(1, 3) {
+		// a re-opening that adds annotations only: the statement scope is entered and left without a new statement
+		e.Stmts = nil
+		if len(e.Annos) == 0 {
+			e.Annos = []Anno{{Name: g.id("n"), Val: g.str()}}
+		}
+	}
 	return e
 }
 
